@@ -206,6 +206,9 @@ func intOne[T intT](c *fw.Ctx, name string, codec avro.IntCodec[T], v int64) {
 	w := avro.NewWriteBuf(make([]byte, 0, 16))
 	codec.Write(w, unsafe.Pointer(&x))
 	got := w.Bytes()
+	if v == 8192 || v == -65 || v == 1<<40 {
+		c.Sample(map[string]interface{}{"codec": name, "value": v, "wire_bytes": fmt.Sprintf("% x", got), "reference_bytes": fmt.Sprintf("% x", want)})
+	}
 	if string(got) != string(want) {
 		c.Violation("wrong-bytes|"+name+"|"+lenClass(len(want)), fmt.Sprintf("%s %d encoded as %x, spec says %x", name, v, got, want), map[string]interface{}{"value": v, "got": fmt.Sprintf("%x", got), "want": fmt.Sprintf("%x", want)})
 		return
@@ -388,6 +391,10 @@ func boolAll(c *fw.Ctx) {
 func decodeOne(c *fw.Ctx, b []byte) {
 	c.Eval(1)
 	c.NontrivialN(1)
+	if len(b) == 10 && b[0] == 0xff && b[9] == 0x7f && b[8] == 0xff {
+		v, n, cl := ref.ReadLong(b)
+		c.Sample(map[string]interface{}{"candidate_varint": fmt.Sprintf("% x", b), "reference_says": map[string]interface{}{"value": v, "consumed": n, "class(0=ok,1=truncated,2=too long,3=overflow)": int(cl)}})
+	}
 	decodeCheck[int16](c, "int16", avro.Int16Codec{}, b)
 	decodeCheck[int32](c, "int32", avro.Int32Codec{}, b)
 	decodeCheck[int64](c, "int64", avro.Int64Codec{}, b)
@@ -472,7 +479,7 @@ func init() {
 			t := tasks(c.Tier)[idx]
 			c.Begin("c17", t.name)
 			if idx%37 == 0 {
-				c.Sample(t.name)
+				c.Sample(map[string]interface{}{"task": t.name})
 			}
 			t.run(c)
 		},
